@@ -51,6 +51,9 @@ def trim (tail : Nat) (cl : CL) : CL :=
       else { cl with ids := first :: rest }
   else cl
 
+/-- The `changed` result of `Snapshot`: items were dropped from the list. -/
+def changed (tail : Nat) (cl : CL) : Bool := decide (tail > 0 ∧ countItems cl cl.ids > tail)
+
 /-- Handing out the snapshot: full chunks are shared, the last chunk (and under --tail the first)
     is copied. -/
 def handOut (tail : Nat) (cl : CL) : CL × List Nat :=
